@@ -212,7 +212,9 @@ pub fn run(monitor: &dyn Monitor, cfg: &RunCfg) -> i32 {
     );
 
     let mut merged = Recorder::new(shift);
-    if cfg.tier != Tier::Miri && cfg.shard.0 == 0 && cfg.only_stream.is_none() {
+    // (under Miri, shard 0 runs a two-thread version of the probe: its data-race detector sees the
+    // first calls of two threads into lazily initialised state)
+    if cfg.shard.0 == 0 && cfg.only_stream.is_none() {
         // before anything else touches the crate in this process
         let mut rec = Recorder::new(shift);
         rec.cur_stream = "cold-start".to_string();
